@@ -1077,6 +1077,9 @@ impl VM {
                         .clean_copy()
                         .to_new_pointer(ptr.clone())
                         .with_import_stack(self.import_stack.clone());
+                    // A module body never sees the surrounding file, including
+                    // the `self` of a copy expression it is instantiated in.
+                    pkg_vm.self_stack.clear();
                     pkg_vm.run(env)?;
                     let (pkg_func, val_pos) = pkg_vm.pop()?;
                     self.merge_field_into_tuple(
@@ -1093,6 +1096,7 @@ impl VM {
                     .clean_copy()
                     .to_new_pointer(ptr.clone())
                     .with_import_stack(self.import_stack.clone());
+                vm.self_stack.clear();
                 vm.push(Rc::new(S("mod".into())), pos.clone())?;
                 vm.push(Rc::new(C(Tuple(flds, flds_pos_list))), pos.clone())?;
                 decorate_call!(pos => vm.run(env))?;
